@@ -183,6 +183,9 @@ func c29(r *sim.R) *sim.Violation {
 			lay.dbOnly = "eth0"
 		}
 	}
+	// the capture manager walks its captures in Go map order (rotation, start-up): with several
+	// interfaces the course of a run is not a function of the tape alone
+	r.RuntimeRandom = len(lay.captured) > 1
 	convs := []conversation{genConversation(t, true), genConversation(t, true), genConversation(t, true)}
 	var pkts [][]pkt
 	tag := 0
